@@ -132,7 +132,7 @@ class Check:
                 for i, line in enumerate(open(os.path.join(d, fn)), 1):
                     if "\\*" in line:
                         code, comment = line.split("\\*", 1)
-                        if code.strip() and re.search(r"\|->|\bELSE\b|\bTHEN\b|\\cup|==|/\\|\\/", comment):
+                        if code.strip() and re.search(r"\|->|\bELSE\b|\bTHEN\b|\\cup|==|/\\|\\/|\{\"|\"\}|\),\s*$|,\s*$", comment):
                             bad.append("%s:%d" % (fn, i))
         if bad:
             raise FrameworkError("specification source: code inside a trailing comment at " + ", ".join(bad))
